@@ -833,6 +833,16 @@ class Schema:
             allmeths: List[str] = []
             for q in reversed(self.repo.mro(nc.qual)):
                 b = self.classes.get(q.rsplit(".", 1)[-1])
+                if (b is None or b.qual != q) and q in self.repo.classes:
+                    # an in-repo mixin that is not itself a node class: its properties and methods are inherited all the same
+                    for mname, mdef in self.repo.classes[q].methods.items():
+                        decos = [ast.unparse(d) for d in mdef.decorator_list]
+                        if "property" in decos or "functools.cached_property" in decos or "cached_property" in decos:
+                            if mname not in allprops:
+                                allprops.append(mname)
+                        elif mname not in allmeths:
+                            allmeths.append(mname)
+                    continue
                 if b is None or b.qual != q:
                     continue
                 for f in b.own_fields:
